@@ -383,7 +383,9 @@ mod real {
                             let t = x.trim();
                             [":skip", ":error", ":fail-fast", ":cst"].contains(&t) || (t.ends_with(')') && (t.starts_with(":language(") || t.starts_with(":platform(")))
                         };
-                        if a.is_empty() && !attrs.iter().any(real_marker) && !self.rng.chance(1, 20) {
+                        // a blank line or an argument-less :platform/:language in the NAME region makes the header
+                        // ill-formed (rejected, resp. attribute text not recoverable): only after a real marker
+                        if (a.is_empty() || a == ":platform") && !attrs.iter().any(real_marker) {
                             continue;
                         }
                         attrs.push(a.to_string());
